@@ -317,6 +317,15 @@ fn invlpgb_case<S: x86_64::structures::paging::page::NotGiantPageSize>(rep: &mut
     }
 }
 
+/// a range of more than 2^32 pages (16 TiB of 4 KiB pages; 65537+ requests at the largest per-request count): page
+/// counters narrower than the range would lose its tail
+fn invlpgb_huge_range(rep: &mut Report, r: &mut Rng) {
+    let o = Opts { pcid: None, asid: None, global: false, final_only: false, nested: false, before_pages: r.chance(1, 2), decoy_pcid: None, decoy_asid: None };
+    let npages = (1u64 << 32) + 1 + r.below(5);
+    let start = r.below(8) << 30;
+    invlpgb_case::<Size4KiB>(rep, "4K", start, npages, 65535, &o, "more-than-2^32-pages");
+}
+
 fn invlpgb_tests(rep: &mut Report, r: &mut Rng) {
     let max: u16 = *r.pick(&[0u16, 1, 2, 3, 7, 255, 4095, 65535, 65534, 100]);
     let max = if r.chance(1, 4) { r.next() as u16 } else { max };
@@ -479,6 +488,9 @@ pub fn run(a: &Args, rep: &mut Report) {
         if i % 8 == 0 {
             invlpgb_misc(rep, &mut r);
         }
+    }
+    if a.shard == 0 || a.thorough() {
+        invlpgb_huge_range(rep, &mut r);
     }
     rep.count("traps", trapemu::TRAPS.load(core::sync::atomic::Ordering::Relaxed));
 }
